@@ -26,11 +26,15 @@ import (
 	"github.com/lestrrat-go/jwx/v2/jws"
 	v2 "github.com/nuts-foundation/nuts-node/vcr/pe/schema/v2"
 	"strings"
+	"time"
 
 	"github.com/PaesslerAG/jsonpath"
 	"github.com/dlclark/regexp2"
 	"github.com/nuts-foundation/go-did/vc"
 )
+
+// patternMatchTimeout is the maximum time spent on matching a single value against the pattern of a filter.
+const patternMatchTimeout = time.Second
 
 // ErrUnsupportedFilter is returned when a filter uses unsupported features.
 var ErrUnsupportedFilter = errors.New("unsupported filter")
@@ -546,6 +550,9 @@ func matchFilter(filter Filter, value interface{}) (bool, interface{}, error) {
 		if err != nil {
 			return false, nil, err
 		}
+		// the pattern may come from a remote party (presentation definition of a verifier) and regexp2 is a backtracking
+		// matcher without a time limit by default: bound it, so a pattern can't keep the matcher busy forever
+		re.MatchTimeout = patternMatchTimeout
 		stringValue, isString := value.(string)
 		if !isString {
 			// e.g. an array of which none of the elements matches
